@@ -85,3 +85,9 @@ impl<'a, T> VxIntoIt<'a, T> for It<'a, T> {
 // ---- boxed systems: `Box<dyn for<'a> RunNow<'a> + Send>` is opaque; ghost identity and declared access
 #[verifier::external_body]
 pub struct SysBox { _p: u8 }
+// ---- i8::abs (std): panics/overflows only for i8::MIN
+pub trait VxAbs: Sized { spec fn vxa(&self) -> int; fn vx_abs(self) -> (r: Self) requires self.vxa() > -128 ensures r.vxa() == (if self.vxa() < 0 { -self.vxa() } else { self.vxa() }); }
+impl VxAbs for i8 {
+    open spec fn vxa(&self) -> int { *self as int }
+    fn vx_abs(self) -> (r: i8) { if self < 0 { -self } else { self } }
+}
